@@ -160,6 +160,31 @@ def derived(tier, rng):
             add(f"{bname}+{bname}.rechunk(1)", lambda base=base, d=data: (base() + base().rechunk(1), d + d, {}))
             add(f"{bname}[:, 1]", lambda base=base, d=data: (base()[:, 1], d[:, 1], {}))
             add(f"{bname}.mean(1)", lambda base=base, d=data: (base().mean(axis=1), d.mean(axis=1), {}))
+    # concatenate / stack of heterogeneous inputs with a list index on a non-concat axis: optimisation pushes the take
+    # into each input separately, whose shuffles may settle on different layouts
+    base4 = np.arange(8, dtype="f8").reshape(4, 2)
+    rows = [(2, 1, 1), (3, 1), (1, 3), (2, 2), (4,), (1, 1, 2)]
+    idxs = [[0, 0, 2, 2, 3, 3, 3, 3], [3, 1, 1, 0], [0, 1, 2, 3, 0, 1, 2, 3], [2, 2, 2]]
+    combos = [(rm, rn, rq, ix) for rm in rows for rn in rows for rq in rows for ix in range(len(idxs)) if rm != rn]
+    if tier == "quick":
+        combos = rng.sample(combos, 60) + [((2, 1, 1), (3, 1), (3, 1), 0)]
+    for rm, rn, rq, ix in combos:
+        def mk3(rm=rm, rn=rn, rq=rq):
+            m = da.from_array(base4, chunks=(rm, (2,)))
+            n = da.from_array(base4 + 100, chunks=(rn, (2,)))
+            q = da.from_array(base4 + 300, chunks=(rq, (2,)))
+            return m, n, q
+        idx = idxs[ix]
+        npq, npe = base4 + 300, base4 + (base4 + 100)
+        add(f"concat([q{rq}, m{rm}+n{rn}],1)[idx{ix}]",
+            lambda mk3=mk3, idx=idx: ((lambda m, n, q: da.concatenate([q, m + n], axis=1)[idx])(*mk3()),
+                                      np.concatenate([npq, npe], axis=1)[idx], {}))
+        add(f"concat([q{rq}[idx{ix}], (m{rm}+n{rn})[idx{ix}]],1)",
+            lambda mk3=mk3, idx=idx: ((lambda m, n, q: da.concatenate([q[idx], (m + n)[idx]], axis=1))(*mk3()),
+                                      np.concatenate([npq[idx], npe[idx]], axis=1), {}))
+        add(f"stack([q{rq}, m{rm}+n{rn}])[:, idx{ix}]",
+            lambda mk3=mk3, idx=idx: ((lambda m, n, q: da.stack([q, m + n])[:, idx])(*mk3()),
+                                      np.stack([npq, npe])[:, idx], {}))
     # creation routines and a persisted input
     add("arange(7, chunks=3)", lambda: (da.arange(7, chunks=3), np.arange(7), {}))
     add("ones((3,4), chunks=2)*3", lambda: (da.ones((3, 4), chunks=2) * 3, np.ones((3, 4)) * 3, {}))
